@@ -13,8 +13,20 @@
                           would answer now, at every evaluation of every history
   About the code before `fix: cache::clear wipes the table when the seal wraps around`:
     seal_wrap_counterexample_prefix   2^32 clears make a pre-clear value visible again
+  About the GENERATED terms (Gen.lean, written by tools/translate_cache.py from the clang AST on every
+  check; semantics: Lang.lean / Sites.lean):
+    gen_keyEq_is_eq, gen_index_in_table, gen_ctor, gen_find_is_model, gen_insert_is_model,
+    gen_clear_is_model, gen_clearKey_is_model, gen_proxy_call_is_model, gen_proxy_clear_is_model
+                          the meaning of each generated body is the model's function
+    find_sound_gen, find_after_insert_gen, find_none_after_clear_gen, load_save_fresh_gen,
+    proxy_transparent_gen the property theorems, stated about the generated terms
+    strategies_clear_after_change, search_run_checked, search_run_never_stale, search_run_transparent
+                          every validation strategy clears the training evaluator after changing the
+                          training set; hence every evaluation search::run makes through the proxy
+                          equals direct evaluation
 -/
 import Vita.C04.Lemmas
+import Vita.C04.GenSem
 namespace Vita.C04
 
 /-- **find_sound** — every history, every table size / index function, every non-empty key:
@@ -258,19 +270,254 @@ example : CSafe true ([.eval 0, .site (.dssInit 0) 1, .eval 0, .eval 1, .site (.
     .site (.dssShake 2 2) 2, .eval 1, .reload, .site (.dssClose 0) 3, .site (.dssInit 1) 4, .eval 0] : List (CEv Nat Nat)) := by
   simp [CSafe, Site.changes, Site.clears]
 
-/-- hold-out: `init(0)` on an empty cache is fine … -/
-example : CSafe true ([.site (.holdoutInit 0) 1, .eval 0, .site (.holdoutInit 1) 1, .eval 0] : List (CEv Nat Nat)) := by
-  simp [CSafe, Site.changes, Site.clears]
+/-- every step of the table that replaces the training set clears the cached evaluator (hold-out:
+    since `fix: holdout_validation::init clears the cached training evaluator`) -/
+theorem sites_all_clear (s : Site) : s.changes = s.clears := by
+  cases s <;> rfl
 
-/-- **holdout_init0_stale** — … but with a non-empty cache (values evaluated, or reloaded, before the
-    first run) `holdout_validation::init(0)` breaks the obligation and the proxy answers with the
-    fitness on the OLD training set -/
-theorem holdout_init0_stale :
-    ¬ CSafe true ([.eval 0, .reload, .site (.holdoutInit 0) 1, .eval 0] : List (CEv Nat Nat)) ∧
-    runP exSig exEv ⟨Cache.init exIdx [0, 1, 2, 3], 0, 0⟩
-        (expandAll [.eval 0, .reload, .site (.holdoutInit 0) 1, .eval 0]) = [[0], [0]] ∧
+/-- hence the call-site obligation holds for EVERY history of validation-strategy steps, evaluations,
+    clears and round trips -/
+theorem csafe_always {Ind Data : Type} (es : List (CEv Ind Data)) (fresh : Bool) : CSafe fresh es := by
+  induction es generalizing fresh with
+  | nil => trivial
+  | cons e es ih =>
+    cases e with
+    | site s d => exact ⟨fun h => Or.inl (by rw [← sites_all_clear]; exact h), ih _⟩
+    | eval i => exact ih _
+    | clear => exact ih _
+    | reload => exact ih _
+
+/-- **proxy_transparent_callsites_all** — unconditional: no hypothesis on the history is left -/
+theorem proxy_transparent_callsites_all {Ind Data : Type} (sig : Ind → Key) (ev : Data → Ind → Fit)
+    (hne : ∀ i, (sig i).empty = false) (hf : ∀ d i j, sig i = sig j → ev d i = ev d j)
+    (idx : Key → Nat) (dom : List Nat) (d0 : Data) (es : List (CEv Ind Data)) :
+    runP sig ev ⟨Cache.init idx dom, d0, 0⟩ (expandAll es) = runDirect ev d0 (expandAll es) :=
+  proxy_transparent_callsites sig ev hne hf idx dom d0 es (csafe_always es true)
+
+/-- the history that was stale before the fix (values evaluated, or reloaded, before the first run;
+    then `holdout_validation::init(0)`) is answered correctly -/
+example : runP exSig exEv ⟨Cache.init exIdx [0, 1, 2, 3], 0, 0⟩
+      (expandAll [.eval 0, .reload, .site (.holdoutInit 0) 1, .eval 0]) = [[0], [10]] ∧
     runDirect exEv 0 (expandAll ([.eval 0, .reload, .site (.holdoutInit 0) 1, .eval 0] : List (CEv Nat Nat)))
-        = [[0], [10]] := by
-  refine ⟨by simp [CSafe, Site.changes, Site.clears], by decide, by decide⟩
+      = [[0], [10]] := by decide
+
+/-! ## the generated terms
+
+  Each `gen_…_is_model` says: the semantics (Lang.lean) of the term the translator extracted from the
+  C++ body is the model's function.  The proofs only unfold the semantics and split on the tests, so
+  they survive a re-ordering of independent statements or of the operands of `==` / `&&`; any change
+  of what the body computes makes them fail. -/
+
+open Lang Sites
+set_option linter.unusedSimpArgs false
+
+/-- hash_t::operator== compares both words -/
+theorem gen_keyEq_is_eq (a b : Key) : gkeq a b = decide (a = b) := by
+  cases a; cases b
+  simp [gkeq, runKeyEq, Gen.keyEq, eval, Env.set, Env.empty]
+  try grind
+
+/-- cache::index stays inside the table (slots 0 … k_mask) -/
+theorem gen_index_in_table (m : UInt64) (k : Key) : (gidx m k).toNat ∈ gdom m := by
+  have h : (gidx m k).toNat ≤ m.toNat := by
+    simp [gidx, runIndex, Gen.index, exec, eval, Env.set, Env.empty, UInt64.toNat_and]
+    exact Nat.and_le_right
+  simp only [gdom, List.mem_range]; omega
+
+/-- cache::cache(bits), bits < 64: mask 2^bits - 1, a table of mask + 1 fresh slots, seal 1 -/
+theorem gen_ctor (bits : Nat) (hb : bits < 64) :
+    gctor bits = some (gInitState bits, (gInitState bits).mask.toNat + 1) := by
+  have h1 : (UInt32.ofNat bits).toNat = bits := by
+    simp only [UInt32.toNat_ofNat']; exact Nat.mod_eq_of_lt (by omega)
+  have h2 := shl_sub_add ⟨bits, hb⟩
+  simp only [gctor, runCtor, Gen.ctorMask, Gen.ctorTable, Gen.ctorSeal, eval, Env.set, Env.empty, h1, hb, if_true,
+    show UInt64.ofNat 1 = 1 from rfl, show UInt32.ofNat 1 = 1 from rfl, gInitState]
+  rw [show (1 <<< UInt64.ofNat bits : UInt64).toNat = _ from h2.symm]
+
+/-- cache::find: what the caller sees is the model's lookup -/
+theorem gen_find_is_model (st : CState) (k : Key) : gfind st k = some ((toCache st).lookup k) := by
+  simp [gfind, runFind, Gen.find, exec, eval, Env.set, Env.empty, gcs, toCache, Cache.lookup, Cache.find, slotGet,
+    gen_keyEq_is_eq]
+  try grind
+
+theorem gen_insert_is_model (st : CState) (k : Key) (v : Fit) :
+    ginsert st k v = some (ofCache st.mask ((toCache st).insert k v)) := by
+  simp [ginsert, runInsert, Gen.insert, exec, eval, assignTo, Env.set, Env.empty, gcs, toCache, ofCache, Cache.insert,
+    slotGet, slotPut, Slot.fresh]
+
+theorem gen_clearKey_is_model (st : CState) (k : Key) :
+    gclearKey st k = some (ofCache st.mask ((toCache st).clearKey k)) := by
+  simp [gclearKey, runKeyVoid, Gen.clearKey, exec, eval, assignTo, Env.set, Env.empty, gcs, toCache, ofCache,
+    Cache.clearKey, slotGet, slotPut, Slot.fresh]
+
+/-- cache::clear(), with the seal-wrap handling -/
+theorem gen_clear_is_model (st : CState) : gclear st = some (ofCache st.mask (toCache st).clear) := by
+  simp [gclear, runVoid, Gen.clear, exec, eval, assignTo, Env.set, Env.empty, gcs, toCache, ofCache, Cache.clear,
+    slotGet, slotPut, Slot.fresh, slotAfter]
+  by_cases h : st.sl + 1 = 0 <;> simp [h]
+
+theorem gstep_is_model (st : CState) (op : Op) : gstep st op = some (ofCache st.mask ((toCache st).step op)) := by
+  cases op <;> simp [gstep, Cache.step, gen_insert_is_model, gen_clear_is_model, gen_clearKey_is_model, greload]
+
+/-- a whole history through the generated members is the model's history (and never loses its meaning) -/
+theorem grun_is_model (st : CState) (ops : List Op) : grun st ops = some (ofCache st.mask ((toCache st).run ops)) := by
+  induction ops generalizing st with
+  | nil => simp [grun, Cache.run, ofCache, toCache]
+  | cons op ops ih =>
+    have h := step_idx_dom (toCache st) op
+    simp only [grun, gstep_is_model, Option.bind_some, ih, ofCache_mask, Cache.run, List.foldl_cons]
+    rw [toCache_ofCache st _ h.1 h.2]
+
+/-- **find_sound_gen** — find_sound about the generated constructor / insert / clear / clear(key) /
+    find (save+load as modelled): after any history a lookup returns the empty fitness or the value
+    most recently stored under exactly that key since the last clear. -/
+theorem find_sound_gen (bits : Nat) (ops : List Op) (k : Key) (hk : k.empty = false) :
+    ∃ st, grun (gInitState bits) ops = some st ∧ ∃ v, gfind st k = some v ∧
+      (v = [] ∨ lastStore k ops.reverse = some v) := by
+  refine ⟨_, grun_is_model _ ops, _, gen_find_is_model _ k, ?_⟩
+  rw [toCache_run, toCache_gInit]
+  simp only [Cache.lookup]
+  cases hf : ((Cache.init _ _).run ops).find k with
+  | none => left; rfl
+  | some v => right; exact find_sound _ _ ops k hk v hf
+
+/-- **find_after_insert_gen** — in any state, generated insert then generated find returns the value -/
+theorem find_after_insert_gen (st : CState) (k : Key) (v : Fit) :
+    ∃ st', ginsert st k v = some st' ∧ gfind st' k = some v := by
+  refine ⟨_, gen_insert_is_model st k v, ?_⟩
+  rw [gen_find_is_model, toCache_ofCache st ((toCache st).insert k v) rfl rfl, lookup_after_insert]
+
+theorem find_none_after_clear_gen (bits : Nat) (ops : List Op) (k : Key) (hk : k.empty = false) :
+    ∃ st, grun (gInitState bits) (ops ++ [Op.clear]) = some st ∧ gfind st k = some [] := by
+  refine ⟨_, grun_is_model _ _, ?_⟩
+  rw [gen_find_is_model, toCache_run, toCache_gInit]
+  simp only [Cache.lookup, find_none_after_clear _ _ ops k hk, Option.getD_none]
+
+/-- **load_save_fresh_gen** — with the generated index and constructor the hypotheses of
+    `load_save_fresh` are met: the round trip answers every lookup alike -/
+theorem load_save_fresh_gen (bits : Nat) (ops : List Op) (k : Key) (hk : k.empty = false) :
+    ∃ st, grun (gInitState bits) ops = some st ∧ gfind (greload st) k = gfind st k := by
+  refine ⟨_, grun_is_model _ ops, ?_⟩
+  have hn : (gdom (gInitState bits).mask).Nodup := List.nodup_range
+  have h := load_save_fresh _ _ hn (fun k => gen_index_in_table _ k) ops k hk
+  rw [gen_find_is_model, gen_find_is_model, greload, ofCache_mask, toCache_run, toCache_gInit,
+    toCache_ofCache (gInitState bits) _ (by rw [reload_eq]; exact (run_idx_dom _ ops).1)
+      (by rw [reload_eq]; exact (run_idx_dom _ ops).2), h]
+
+section genproxy
+variable {Ind Data : Type} (sig : Ind → Key) (ev : Data → Ind → Fit)
+
+/-- evaluator_proxy::operator() -/
+theorem gen_proxy_call_is_model (s : PSt CState Data) (i : Ind) :
+    gproxyEval sig ev s i =
+      some ((proxyEval sig ev (toP s) i).1, ofP s.cache.mask (proxyEval sig ev (toP s) i).2) := by
+  simp only [gproxyEval, runProxyCall, Gen.proxyCall, pexec, pevalE, gworld, PKey.eval, gen_find_is_model,
+    gen_insert_is_model, Option.map_some, proxyEval, toP, ofP]
+  by_cases h : ((toCache s.cache).lookup (sig i)).isEmpty = true
+  · simp [h, ofCache]
+  · simp [h, ofCache]
+    cases s with
+    | mk c d n => cases c; rfl
+
+/-- evaluator_proxy::clear() -/
+theorem gen_proxy_clear_is_model (s : PSt CState Data) :
+    gproxyClear s = some (ofP s.cache.mask { toP s with cache := (toP s).cache.clear }) := by
+  simp [gproxyClear, runProxyClear, Gen.proxyClear, pexec, gen_clear_is_model, toP, ofP]
+
+/-- the generated proxy, run along any history, answers exactly as the model's proxy -/
+theorem gRunP_is_model (s : PSt CState Data) (es : List (Ev Ind Data)) :
+    gRunP sig ev s es = some (runP sig ev (toP s) es) := by
+  induction es generalizing s with
+  | nil => rfl
+  | cons e es ih =>
+    cases e with
+    | eval i =>
+      have h := proxyEval_idx_dom sig ev (toP s) i
+      simp only [gRunP, gpstep, gen_proxy_call_is_model, Option.map_some, ih, runP, pstep]
+      rw [toP_ofP s _ h.1 h.2]
+    | setData d =>
+      simp only [gRunP, gpstep, ih, runP, pstep]; rfl
+    | clear =>
+      have h := step_idx_dom (toP s).cache Op.clear
+      simp only [gRunP, gpstep, gen_proxy_clear_is_model, Option.map_some, ih, runP, pstep]
+      rw [toP_ofP s _ h.1 h.2]
+    | reload =>
+      have h := step_idx_dom (toP s).cache Op.reload
+      simp only [gRunP, gpstep, ih, runP, pstep]
+      have : toP { s with cache := greload s.cache } = { toP s with cache := (toP s).cache.reload } := by
+        simp only [toP, greload]
+        rw [toCache_ofCache s.cache (toCache s.cache).reload h.1 h.2]
+      rw [this]
+
+/-- **proxy_transparent_gen** — proxy_transparent about the generated operator() / clear() over the
+    generated cache members: under the usage discipline every answer is direct evaluation's. -/
+theorem proxy_transparent_gen (bits : Nat) (d0 : Data) (es : List (Ev Ind Data))
+    (hd : Disciplined sig ev d0 none [] es) :
+    gRunP sig ev ⟨gInitState bits, d0, 0⟩ es = some (runDirect ev d0 es) := by
+  rw [gRunP_is_model]
+  exact congrArg some (proxy_transparent sig ev _ _ d0 es hd)
+
+end genproxy
+
+/-- the non-vacuity instance of `proxy_transparent`, through the generated terms -/
+example : gRunP exSig exEv ⟨gInitState 2, 0, 0⟩ exEvents = some [[0], [1], [0], [0], [], [], [10], [10]] := by
+  rw [proxy_transparent_gen exSig exEv 2 0 exEvents (by simp [Disciplined, exEvents, exSig, exEv, Key.empty])]
+  decide
+
+/-! ## the call sites, from the generated skeletons -/
+
+/-- **strategies_clear_after_change** — each step (init / shake / close) of each class derived from
+    validation_strategy keeps an up-to-date cache up to date on every path: entered with an empty
+    cache it leaves it empty, entered with current values it never leaves stale ones — a change of
+    the training set is followed by clear() on the training evaluator before the step returns, or
+    preceded by one with no evaluation in between. -/
+theorem strategies_clear_after_change :
+    ∀ st ∈ Gen.strategies, stepKeepsCurrent st .init = true ∧ stepKeepsCurrent st .shake = true ∧
+      stepKeepsCurrent st .close = true := by decide
+
+/-- **search_run_checked** — the checker accepts search::run (as src_search runs it) with each strategy -/
+theorem search_run_checked : ∀ st ∈ Gen.strategies, safeUnder Gen.searchRun st = true := by decide
+
+/-- **search_run_never_stale** — no execution of search::run, with any of the strategies, evaluates
+    through the training evaluator while it may hold values computed on a previous training set. -/
+theorem search_run_never_stale (st : String × Eff × Eff × Eff) (hst : st ∈ Gen.strategies)
+    (t : List Atom) (ht : Trace (stepOf st) Gen.searchRun t) : (runA .fresh t).isSome = true := by
+  have h := search_run_checked st hst
+  simp only [safeUnder] at h
+  cases hp : post (sumOf st) Gen.searchRun .fresh with
+  | none => simp [hp] at h
+  | some r =>
+    obtain ⟨r0, e0, _⟩ := post_sound (sum := sumOf st) (fun m s r h => sumOf_sound st m s r h) ht .fresh r hp .fresh
+      (le_refl _)
+    simp [e0]
+
+/-- **search_run_transparent** — every answer the (generated) proxy gives during any execution of
+    search::run with any strategy, whatever data the changes install and whichever individuals are
+    evaluated, is the wrapped evaluator's answer at that moment (signatures faithful and non-empty). -/
+theorem search_run_transparent {Ind Data : Type} (sig : Ind → Key) (ev : Data → Ind → Fit)
+    (hne : ∀ i, (sig i).empty = false) (hf : ∀ d i j, sig i = sig j → ev d i = ev d j)
+    (st : String × Eff × Eff × Eff) (hst : st ∈ Gen.strategies)
+    (t : List Atom) (ht : Trace (stepOf st) Gen.searchRun t)
+    (es : List (Ev Ind Data)) (hr : Realizes t es) (bits : Nat) (d0 : Data) :
+    gRunP sig ev ⟨gInitState bits, d0, 0⟩ es = some (runDirect ev d0 es) :=
+  proxy_transparent_gen sig ev bits d0 es
+    (disciplined_of_runA sig ev hne hf hr .fresh d0 none [] (search_run_never_stale st hst t ht) rfl)
+
+/-- non-vacuity: search::run has executions with changes, clears, loads and evaluations (for every
+    strategy the witness trace of `pick` is a trace; for dss it is long and mixed), and every atom
+    sequence is realised by some proxy history -/
+example : ∀ st ∈ Gen.strategies, Trace (stepOf st) Gen.searchRun (pick (stepOf st) Gen.searchRun) := by
+  intro st hst
+  refine pick_trace _ ?_ _
+  have : ∀ st ∈ Gen.strategies, (stepOf st .init).flat = true ∧ (stepOf st .shake).flat = true ∧
+      (stepOf st .close).flat = true := by decide
+  intro m; cases m
+  · exact (this st hst).1
+  · exact (this st hst).2.1
+  · exact (this st hst).2.2
+example : ∃ st ∈ Gen.strategies, st.1 = "dss" ∧
+    let t := pick (stepOf st) Gen.searchRun
+    Atom.change ∈ t ∧ Atom.clear ∈ t ∧ Atom.eval ∈ t ∧ Atom.load ∈ t ∧ 20 ≤ t.length := by decide
+example (t : List Atom) : ∃ es : List (Ev Nat Nat), Realizes t es := realizes_exists 0 0 t
 
 end Vita.C04
